@@ -333,7 +333,13 @@ func VerifClassifyLine(line []byte) any {
 }
 
 func VerifValidateResultPath(repoDir, rel string) (string, error) { return validateResultPath(repoDir, rel) }
-func VerifResolveErgoDir(start string) (string, error)            { return resolveErgoDir(start) }
+// the discovery every command goes through (ergoDir: the start directory from --dir or the cwd, then the upward walk)
+func VerifResolveErgoDir(start string) (string, error) {
+	if start == "" {
+		return resolveErgoDir(start)
+	}
+	return ergoDir(GlobalOptions{StartDir: start})
+}
 func VerifGetEventsPath(dir string) string                        { return getEventsPath(dir) }
 func VerifDeriveFileURL(rel, repoDir string) string               { return deriveFileURL(rel, repoDir) }
 
